@@ -123,7 +123,7 @@ def check_packet(ctx, rng, is_data, kind, content_len, mut_budget):
             ph = rng.choice([None, None, 0, 1])
             in_comps = list(comps)
             if ph is not None:
-                in_comps.insert(min(ph, len(in_comps)), rc.comp(2, bytes(32)))
+                in_comps.insert(min(ph, len(in_comps)), rc.comp(2, bytes(32) if rng.random() < 0.4 else gen.rand_bytes(rng, 32)))
                 if rng.random() < 0.4:
                     # full-name layout: the parameters digest stays mid-name and an implicit digest comes last
                     in_comps.append(rc.comp(1, gen.rand_bytes(rng, 32)))
@@ -235,6 +235,38 @@ def check_packet(ctx, rng, is_data, kind, content_len, mut_budget):
             muts.append(('splice-sig', wire[:i] + oref['sig_value'] + wire[i + len(sv):]))
     except Exception:   # noqa
         pass
+    # Interests: the parameters-digest component made longer / shorter while its first octets stay the correct hash (Name and
+    # packet lengths fixed up): whatever else happens to such a packet, its digest component does not EQUAL the hash
+    special = []
+    if not is_data:
+        try:
+            r0 = rc.strict_interest(wire)
+            if r0['app_param'] is not None and sum(1 for c in r0['name'] if rc.comp_parts(c)[0] == 2) == 1:
+                b0, vs0, ve0 = rc.outer(wire, 5)
+                kids = rc.children(b0, vs0, ve0)
+                for extra in (b'\x00', b'\x01' * 8, b'\xaa' * 220, None):
+                    comps2 = []
+                    for c in r0['name']:
+                        t_, v_ = rc.comp_parts(c)
+                        comps2.append(rc.comp(2, (v_ + extra) if extra is not None else v_[:20]) if t_ == 2 else c)
+                    special.append(('digest-length-changed', rc.enc_tlv(5, rc.enc_name(comps2) + b0[kids[0][3]:ve0])))
+        except (rc.Reject, KeyError, IndexError):
+            pass
+    for label, m in special:
+        try:
+            mname, msig = parse_any(is_data, m)
+        except Exception:   # noqa
+            ctx.event('mutant-parse-rejected')
+            continue
+        try:
+            got = bool(run_sync(params_sha256_checker(mname, msig)))
+        except Exception:   # noqa
+            ctx.event('params-checker-raised')
+            continue
+        ctx.event('params-checker-digest-length-changed')
+        if got:
+            ctx.report('params-checker-iff', 'params_sha256_checker=True for a digest component that is not 32 octets long (its first octets are the correct hash)',
+                       dict(w, mutant=m[:400], label=label))
     if mut_budget is not None and len(muts) > mut_budget:
         keep = [m_ for m_ in muts if m_[0].endswith('sig-value') or m_[0] == 'splice-sig']
         muts = keep + rng.sample([m_ for m_ in muts if m_ not in keep], max(0, mut_budget - len(keep)))
